@@ -102,6 +102,9 @@ func cmdRun(args []string) int {
 	}
 	t0 := time.Now()
 	evPath := filepath.Join(verifDir, "evidence", id+".json")
+	if d := os.Getenv("VERIF_EVIDENCE_DIR"); d != "" {
+		evPath = filepath.Join(d, id+".json")
+	}
 	os.MkdirAll(filepath.Dir(evPath), 0o755)
 	os.Remove(evPath)
 
@@ -327,10 +330,22 @@ func cmdRun(args []string) int {
 					why = "native outcome " + nv.Outcome + " " + nv.Detail
 				}
 				// assertions the engine discharged on this path must hold natively
+				// (an assertion met while replaying a decision prefix is recorded by
+				// the path that first met it, so the labels of paths sharing a prefix
+				// with this one count as well)
 				violatedHere := map[string]bool{}
-				for _, a := range p.Asserts {
-					if a.Status == "violated" || a.Status == "inconclusive" {
-						violatedHere[a.Label] = true
+				for _, q := range res.Paths {
+					k := 0
+					for k < len(q.Trace) && k < len(p.Trace) && q.Trace[k] == p.Trace[k] {
+						k++
+					}
+					if k == 0 && len(q.Trace) > 0 && len(p.Trace) > 0 {
+						continue
+					}
+					for _, a := range q.Asserts {
+						if a.Status == "violated" || a.Status == "inconclusive" {
+							violatedHere[a.Label] = true
+						}
 					}
 				}
 				for _, f := range nv.Failed {
